@@ -246,6 +246,9 @@ func (f *SQLFormatter) formatSetOperation(stmt *ast.SetOperation) error {
 
 // formatInsert formats INSERT statements
 func (f *SQLFormatter) formatInsert(stmt *ast.InsertStatement) error {
+	if err := f.formatWithPrefix(stmt.With); err != nil {
+		return err
+	}
 	f.writeKeyword("INSERT INTO")
 	f.builder.WriteString(" " + ast.QualifiedNameSQL(stmt.TableName))
 
@@ -270,22 +273,53 @@ func (f *SQLFormatter) formatInsert(stmt *ast.InsertStatement) error {
 
 	if stmt.Query != nil {
 		f.writeNewline()
-		if sel, ok := stmt.Query.(*ast.SelectStatement); ok {
-			return f.formatSelect(sel)
-		}
-		// For SetOperation or other statement types, use Format if available
-		if fmtable, ok := stmt.Query.(interface {
-			Format(ast.FormatOptions) string
-		}); ok {
-			f.builder.WriteString(fmtable.Format(ast.FormatOptions{}))
+		if err := f.formatStatement(stmt.Query); err != nil {
+			return err
 		}
 	}
+
+	// Clauses without a layout of their own are written as the AST serialises them
+	if stmt.OnConflict != nil {
+		f.writeNewline()
+		f.builder.WriteString(stmt.OnConflict.SQL())
+	}
+	if stmt.OnDuplicateKey != nil {
+		f.writeNewline()
+		f.builder.WriteString(stmt.OnDuplicateKey.SQL())
+	}
+	f.formatReturning(stmt.Returning)
 
 	return nil
 }
 
+// formatWithPrefix writes the WITH clause of a data-modifying statement
+func (f *SQLFormatter) formatWithPrefix(with *ast.WithClause) error {
+	if with == nil {
+		return nil
+	}
+	if err := f.formatWithClause(with); err != nil {
+		return err
+	}
+	f.writeNewline()
+	return nil
+}
+
+// formatReturning writes a RETURNING clause
+func (f *SQLFormatter) formatReturning(exprs []ast.Expression) {
+	if len(exprs) == 0 {
+		return
+	}
+	f.writeNewline()
+	f.writeKeyword("RETURNING")
+	f.builder.WriteString(" ")
+	f.formatExpressionList(exprs, ", ")
+}
+
 // formatUpdate formats UPDATE statements
 func (f *SQLFormatter) formatUpdate(stmt *ast.UpdateStatement) error {
+	if err := f.formatWithPrefix(stmt.With); err != nil {
+		return err
+	}
 	f.writeKeyword("UPDATE")
 	f.builder.WriteString(" " + ast.QualifiedNameSQL(stmt.TableName))
 
@@ -309,6 +343,13 @@ func (f *SQLFormatter) formatUpdate(stmt *ast.UpdateStatement) error {
 		}
 	}
 
+	if len(stmt.From) > 0 {
+		f.writeNewline()
+		f.writeKeyword("FROM")
+		f.builder.WriteString(" ")
+		f.formatTableReferences(stmt.From)
+	}
+
 	if stmt.Where != nil {
 		f.writeNewline()
 		f.writeKeyword("WHERE")
@@ -318,11 +359,16 @@ func (f *SQLFormatter) formatUpdate(stmt *ast.UpdateStatement) error {
 		}
 	}
 
+	f.formatReturning(stmt.Returning)
+
 	return nil
 }
 
 // formatDelete formats DELETE statements
 func (f *SQLFormatter) formatDelete(stmt *ast.DeleteStatement) error {
+	if err := f.formatWithPrefix(stmt.With); err != nil {
+		return err
+	}
 	f.writeKeyword("DELETE FROM")
 	f.builder.WriteString(" " + ast.QualifiedNameSQL(stmt.TableName))
 
@@ -330,6 +376,13 @@ func (f *SQLFormatter) formatDelete(stmt *ast.DeleteStatement) error {
 		f.builder.WriteString(" " + ast.IdentifierSQL(stmt.Alias))
 	}
 
+	if len(stmt.Using) > 0 {
+		f.writeNewline()
+		f.writeKeyword("USING")
+		f.builder.WriteString(" ")
+		f.formatTableReferences(stmt.Using)
+	}
+
 	if stmt.Where != nil {
 		f.writeNewline()
 		f.writeKeyword("WHERE")
@@ -338,6 +391,8 @@ func (f *SQLFormatter) formatDelete(stmt *ast.DeleteStatement) error {
 			return err
 		}
 	}
+
+	f.formatReturning(stmt.Returning)
 
 	return nil
 }
